@@ -94,7 +94,82 @@ def c10(pid, tier, replay):
     return res.finish()
 
 
+def c11(pid, tier, replay):
+    from . import genlex
+    res = core.Result(pid, "model_checking", tier)
+    seed = core.seed()
+    rng = random.Random(seed * 17 + 11)
+    n = 2500 if tier == "thorough" else 300
+    insts = []
+    if replay:
+        with open(replay) as f:
+            insts = [json.load(f)["instance"]]
+    else:
+        for i in range(n):
+            d = genlex.gen_lsrc(rng)
+            text, rd = genlex.render_lsrc(d, rng)
+            inputs = [genlex.gen_input(rng, 8) for _ in range(5)] + ["a\nb", "A", "K k", "a b", "ab", "\x08a", "A\n", "é", "a<b", "x y"]
+            inst = dict(id="l%d" % i, l=text, doc=rd, eff=rd["eff"], inputs=inputs)
+            if d["builder"] is not None:
+                inst["builder_flags"] = d["builder"]
+            insts.append(inst)
+    job = os.path.join(res.wd, "job.json")
+    trace = os.path.join(res.wd, "trace.ndjson")
+    with open(job, "w") as f:
+        json.dump(dict(instances=insts), f)
+    core.run_vh(["lex", job, trace])
+    # split into instances
+    cases = []
+    for line in open(trace):
+        if '"ev":"lexreset"' in line:
+            cases.append([line])
+        else:
+            cases[-1].append(line)
+    byid = {i["id"]: i for i in insts}
+    res.notes["documents"] = len(insts)
+    res.notes["with_grmtools_section"] = sum(1 for i in insts if i["l"].lstrip().startswith("%grmtools"))
+    res.notes["through_builder_flags"] = sum(1 for i in insts if "builder_flags" in i)
+    res.notes["rejected"] = sum(1 for c in cases if any('"ev":"lexdef_err"' in x for x in c))
+    if not replay:
+        st = None
+        for c in cases:
+            for k, x in enumerate(c):
+                e = json.loads(x)
+                if e.get("ev") == "lexdef" and e["rules"]:
+                    e["rules"][0]["name_span"][0] += 1
+                    v = validate(res, "TraceLSrc", 9000, c[:k] + [json.dumps(e) + "\n"] + c[k + 1:], dict(PROP="C11"))
+                    st = dict(rejected=len(v["devs"]) > 0, corruption="name span start + 1")
+                    break
+            if st:
+                break
+        res.notes["binding_selftest"] = st
+        if st and not st["rejected"]:
+            raise core.ToolError("binding self-test failed")
+    nparts = 1 if replay else (10 if tier == "thorough" else 5)
+    parts = [sum(cases[i::nparts], []) for i in range(nparts)]
+    parts = [p for p in parts if p]
+    with concurrent.futures.ThreadPoolExecutor(max_workers=len(parts)) as ex:
+        results = list(ex.map(lambda a: validate(res, "TraceLSrc", a[0], a[1], dict(PROP="C11")), enumerate(parts)))
+    for v in results:
+        res.add_tlc(v["r"])
+        for d in v["devs"]:
+            res.deviation(d, dict(instance=byid.get(d["inst"]), seed=seed))
+        if v["consumed"] == v["nlines"]:
+            res.cov["traces_validated_against_impl"] += sum(1 for x in v["lines"] if '"ev":"lexreset"' in x)
+        elif v["r"]["timeout"]:
+            res.cov["inconclusive"] += 1
+        else:
+            res.violation("trace rejected by the specification: " + (v["r"]["error"] or "not all events consumed")[:400],
+                          dict(tlc_out=v["r"]["out"][-2000:]))
+    for i in insts[:2]:
+        res.sample(dict(id=i["id"], l=i["l"], flags_in_force=i["eff"]))
+    res.assumptions += ["the regex crate decides what a regular expression matches; the documents are generated valid"]
+    return res.finish()
+
+
 def main(pid, tier, replay=None):
     if pid == "C10":
         return c10(pid, tier, replay)
+    if pid == "C11":
+        return c11(pid, tier, replay)
     raise core.ToolError("not built: " + pid)
